@@ -201,8 +201,8 @@ CLAIMS = {
              "poisoning schedule); reopen under single faults (C09's oracle). First-use "
              "initialisation: the same single faults and exhaustion in forked fresh processes (no panic, no death, later calls recover).",
         note="Finding F9d (first use under descriptor exhaustion panicked in the global procfs handle's Lazy and poisoned it) was found "
-             "by this suite and repaired. Panics inside error-message construction when the diagnostic /proc reads themselves fail "
-             "repeatedly are outside the single-fault quantifier and are modelled (Err.panic) rather than proved absent. An injected "
+             "by this suite and repaired. Error-message construction (the diagnostic /proc reads of FrozenFd) recursed without bound when /proc/thread-self could "
+             "not be found (finding F26, repaired): it now always completes, and the model's failWith always ends in OsError. An injected "
              "ENOENT on remove_all is tolerated by design (C13) and exempt from the work-done oracle; likewise an injected "
              "ENOENT/EINVAL in open_follow's readlink probe (the kernel's words for 'no such file'/'not a symlink', on which the "
              "no-follow open is the design). Finding F22 (any probe failure selected the no-follow open: reopen(O_PATH) under a "
